@@ -328,6 +328,12 @@ def _first_key(v):
     return ("filter", "first", ("call", ("attr", ("attr", v, "element_count"), "keys"), (), ()), (), ())
 
 
+def _r4_items(ctx, rel, cfg):
+    """the template as R4 reads it: includes / macros / configuration tests resolved, and a loop over `S | map(attribute="alias")`
+    read as the loop over S it is (its variable being `x.alias`) -- which sequence an index is paired with is what matters"""
+    return J.unmap_loops(J.flatten(ctx.tree, rel, cfg))
+
+
 def _jsubst(e, sets):
     """the expression with the names bound by earlier `{% set %}` / macro parameters replaced by what they stand for"""
     if isinstance(e, tuple) and len(e) == 2 and e[0] == "name" and e[1] in sets:
@@ -378,7 +384,7 @@ def _loop_stream(loop):
 
 def _def_loops(ctx, rel, prefix_re, seq, suffix_of, what, expected):
     """loops `for v in <seq>` whose body writes `<prefix><suffix(v)> <sep> loop.index0` (through {% set %} names or a macro alike)."""
-    items = J.flatten(ctx.tree, rel, {})
+    items = _r4_items(ctx, rel, {})
     ctx.saw(rel)
     hits = []
     for it, st in _stream(items):
@@ -407,7 +413,7 @@ def _r4_defs(ctx, pkg):
         _def_loops(ctx, rel, r"IDX_\x00", NSPEC, alias, "IDX_ definitions", "IDX_<alias>")
     # constants.py: lists and counts
     ctx.saw(PYCONST)
-    items = J.flatten(ctx.tree, PYCONST, {})
+    items = _r4_items(ctx, PYCONST, {})
     lists = {"ALL_ELEMENTS": (NELEM, "name"), "ALL_SPECIES": (NSPEC, "name"), "ALL_ALIAS": (NSPEC, "alias")}
     prev = ""
     found = {}
@@ -496,7 +502,7 @@ def _r4_defs(ctx, pkg):
             ctx.check(ok, "R4", f"NetworkConfiguration:{f.target}", (CONF, f.line), f"{f.target} = [x.{fld} for x in network.{seq[2]}]", found=show(simp(f.value))[:80])
     # enzo header
     ctx.saw(ENZOH)
-    items = J.flatten(ctx.tree, ENZOH, {})
+    items = _r4_items(ctx, ENZOH, {})
     loops = [it for it, st in J.walk_items(items) if it[0] == "for"]
     ok_all = len(loops) == 2
     for it in loops:
@@ -525,7 +531,7 @@ def _r4_uses(ctx):
         if rel.endswith("Grid_NaunetWrapper.C.j2"):
             cfgs = [{"device": "cpu"}, {"device": "gpu"}]
         for cfg in cfgs:
-            items = J.flatten(ctx.tree, rel, cfg)
+            items = _r4_items(ctx, rel, cfg)
             prev = ""
             # `{% set elemname = .. %}` / macro parameters: a later {{ elemname }} is that expression; {{ "ELEM_" ~ x }} is text + {{ x }}
             for it, st in _stream(items):
@@ -577,15 +583,13 @@ def _r4_uses(ctx):
     # map-filter spellings: network.species | map(attribute="alias") | map("prefix", "y[IDX_") ...
     n2 = 0
     for rel in rels:
-        items = J.flatten(ctx.tree, rel, {})
+        items = _r4_items(ctx, rel, {})
         sets = {}
 
         def res(e):
-            if isinstance(e, tuple) and len(e) == 2 and e[0] == "name" and e[1] in sets:
-                return res(sets[e[1]])
-            if isinstance(e, tuple):
-                return tuple(res(x) if isinstance(x, tuple) else x for x in e)
-            return e
+            # values are stored resolved: one lookup (a macro parameter bound to the caller's variable of the same name,
+            # `{% set x = x %}`, stays the name)
+            return _jsubst(e, sets)
         for it, st in J.walk_items(items):
             exprs = []
             if it[0] == "set":
